@@ -14,4 +14,8 @@ def addrGuard : Bool := false
     `__post_init__` overwrite the P bit). -/
 def decodeKeepsFlags : Bool := true
 
+/-- `Message.to_answer` re-applies the request's P bit after constructing the
+    answer class (true since the `fix:` commit for C20). -/
+def answerKeepsP : Bool := true
+
 end DV.Config
